@@ -68,16 +68,17 @@ func safeRun(f func(w *World) error, w *World) (err error) {
 }
 
 type runner struct {
-	r           *corr.Run
-	fx          *Fixture
-	main        *World
-	g           *gen
-	ops         []string // descriptions of the operations executed so far (the replayable input)
-	dead        bool     // a violation was found: the workload stops
-	lastLen     map[string]int
-	durableSeen map[string]bool
-	mu          sync.Mutex
-	modelOps    []string
+	r            *corr.Run
+	fx           *Fixture
+	main         *World
+	g            *gen
+	ops          []string // descriptions of the operations executed so far (the replayable input)
+	dead         bool     // a violation was found: the workload stops
+	lastLen      map[string]int
+	durableSeen  map[string]bool
+	mu           sync.Mutex
+	modelOps     []string
+	pendingApply bool
 }
 
 func Run(r *corr.Run) {
@@ -318,6 +319,7 @@ func (rn *runner) exec(op *opSpec) {
 		}
 	}
 	if len(ks) == 0 {
+		rn.applyModel(post)
 		if op.after != nil {
 			op.after()
 		}
@@ -366,6 +368,17 @@ func (rn *runner) exec(op *opSpec) {
 		if rn.dead {
 			return
 		}
+	}
+	// the model's fault semantics (error path rolls back) against what the real code left behind
+	if op.model != nil && len(results) > 0 && results[0] != nil {
+		rn.checkModelFaults(op, results[0].faults)
+		if rn.dead {
+			return
+		}
+	}
+	rn.applyModel(post)
+	if rn.dead {
+		return
 	}
 	if op.after != nil {
 		op.after()
@@ -421,6 +434,7 @@ type forkResult struct {
 	counts []string
 	viols  []viol
 	fatal  string
+	faults map[int]string // call k → model-style digest of the durable state found after the fault at k
 }
 
 func (fr *forkResult) count(k string) { fr.counts = append(fr.counts, k) }
@@ -436,7 +450,7 @@ func (fr *forkResult) violate(sig, stream, desc string) bool {
 // time the retry of the previous failed one up to its own fault; after the last one the input is applied
 // without a fault and must lead to the post-state. A single-element ks is the isolated single-fault case.
 func (rn *runner) faultOnFork(op *opSpec, ks []int, evs []Event, preImg string, pre, post *Dump, postSem string) (fr *forkResult) {
-	fr = &forkResult{}
+	fr = &forkResult{faults: map[int]string{}}
 	fx := rn.fx
 	dir := fx.newDir("fork")
 	defer os.RemoveAll(dir)
@@ -499,6 +513,7 @@ func (rn *runner) faultOnFork(op *opSpec, ks []int, evs []Event, preImg string, 
 			fr.violate("", "fault-state", fmt.Sprintf("%s: a storage fault at %s was swallowed: the operation reported success", op.kind, at))
 			return
 		}
+		fr.faults[k] = d1.modelDigest(fx)
 		if p := liveAgrees(w, d1, op.trees, op.acl); len(p) > 0 {
 			fr.violate(classify(op, "live", p[0]), "fault-live", fmt.Sprintf("%s: after a fault at %s: %s", op.kind, at, p[0]))
 			return
